@@ -179,6 +179,78 @@ def o_history(ctx):
     ctx.claim('text-independent-of-history', again['summary'] == first['summary'] and again['determinants'] == first['determinants'])
 
 
+FRESH_SUBJECTS = [('pair_ASP_ASP', []), ('pair_GLU_ARG_TYR', []), ('lig_MTX', []), ('pep8', ['-d'])]
+_FRESH = {}
+
+
+def _run_history_item(hname, hargs):
+    try:
+        if hname == 'unknown-element':
+            M.run(M.text('tri_ASP') + H.pdb_line(900, 'XX1', 'UNK', 'A', 900, 30.0, 30.0, 30.0, rec='HETATM', element='Xx'))
+        elif hname == 'other-parameters':
+            import propka.parameters as PP
+            orig = PP.Parameters.parse_line
+
+            def parse(self, line, orig=orig):
+                orig(self, line)
+                self.min_interaction_energy = 0.01
+                self.max_intrinsic_pka_diff = 20.0
+                self.min_swap_pka_shift = 0.0
+                self.max_free_energy_diff = 50.0
+            PP.Parameters.parse_line = parse
+            try:
+                M.run(M.text('pair_ASP_ASP'), args=['-d'])
+            finally:
+                PP.Parameters.parse_line = orig
+        else:
+            M.run(M.text(hname), args=list(hargs))
+    except Exception:
+        pass
+
+
+def _fresh_main():
+    """child side: run the listed history, then the subject, in THIS (pristine) interpreter; print the snapshot"""
+    import json
+    import sys
+    spec = json.loads(sys.argv[1])
+    for hname, hargs in spec['history']:
+        _run_history_item(hname, hargs)
+    sname, sargs = spec['subject']
+    print('SNAPSHOT ' + json.dumps(snapshot(M.run(M.text(sname), args=list(sargs)))))
+
+
+def fresh(subject, history):
+    """the snapshot of `subject` computed in a newly started interpreter (plain package, nothing imported or computed
+    before) after the given history"""
+    import json
+    import subprocess
+    import sys
+    key = json.dumps({'subject': subject, 'history': history})
+    if key not in _FRESH:
+        env = dict(os.environ)
+        env['PYTHONPATH'] = os.pathsep.join([os.path.dirname(os.path.dirname(os.path.abspath(__file__))), H.REPO])
+        r = subprocess.run([sys.executable, '-c', 'from harness import c03; c03._fresh_main()', key], env=env, capture_output=True, text=True, timeout=600)
+        line = [l for l in r.stdout.splitlines() if l.startswith('SNAPSHOT ')]
+        if not line:
+            raise RuntimeError('fresh interpreter failed: ' + r.stderr[-400:])
+        _FRESH[key] = json.loads(line[-1][9:])
+    return _FRESH[key]
+
+
+def o_history_fresh(ctx):
+    """as O2, but the reference is the run in a pristine interpreter: state that the very first run of a process
+    leaves behind (class-level containers, module caches) cannot hide in the reference"""
+    subject = list(ctx.choice('subject', FRESH_SUBJECTS))
+    history = [list(ctx.choice('history_0', HISTORIES))]
+    if ctx.choice('history_length', [1, 2]) == 2:
+        history.append(list(ctx.choice('history_1', HISTORIES[:6])))
+    alone = fresh(subject, [])
+    after = fresh(subject, history)
+    ctx.claim('values-independent-of-history', after['values'] == alone['values'],
+              detail='differs: %r' % ([x for x in after['values'] if x not in alone['values']][:3],))
+    ctx.claim('text-independent-of-history', after['summary'] == alone['summary'] and after['determinants'] == alone['determinants'])
+
+
 def o_path_vs_stream(ctx):
     """the same content given as a path, as a StringIO and twice in one main()
     invocation gives the same .pka text apart from the date line"""
@@ -349,6 +421,11 @@ def obligations(tier):
                                 'propka/lib.py:Options (class defaults)', 'propka/run.py:single'],
                           bounds='4 subject runs x histories of 1-2 earlier runs out of 9 (other structures/options, -d, unknown element, modified Parameters)',
                           claim_doc='the subject run gives the same values and text before and after the history', max_paths=100000, shards=16, wall_s=170))
+    obs.append(Obligation('O2-history-independence[fresh-interpreter]', o_history_fresh,
+                          code=['propka/conformation_container.py:ConformationContainer.__init__', 'propka/molecular_container.py:MolecularContainer.__init__', 'propka/group.py:PROTONATOR',
+                                'propka/coupled_groups.py:NCCG', 'propka/atom.py:Atom (class defaults)', 'propka/run.py:single'],
+                          bounds='4 subject runs x histories of 1-2 earlier runs out of 9, each world in a newly started interpreter; the reference is the subject alone in a pristine interpreter',
+                          claim_doc='the subject run after the history gives the values and text of the subject run alone', max_paths=100000, shards=16, wall_s=170))
     obs.append(Obligation('O4-singleton-purity[NCCG]', o_nccg_purity,
                           code=['propka/coupled_groups.py:NCCG', 'propka/coupled_groups.py:NonCovalentlyCoupledGroups.is_coupled_protonation_state_probability'],
                           bounds='an earlier probe on a concrete structure with symbolic energies, then the probe under test (2 groups + bystander, all values and energies symbolic); pH variable or 7',
